@@ -310,6 +310,14 @@ func ruleSkipTable(c *eng.Ctx) {
 		return
 	}
 	labels, _ := caseTable(fd)
+	// the same set spelled as a lookup table (local or package-level map literal) or as comparisons
+	if fn := c.P.Func("htmldoc.shouldSkipElement"); fn != nil {
+		for k := range trueStringSet(fn) {
+			if _, ok := labels[k]; !ok {
+				labels[k] = -1
+			}
+		}
+	}
 	var bad []string
 	for _, w := range []string{"script", "style"} {
 		if _, ok := labels[w]; !ok {
